@@ -464,5 +464,5 @@ CLAIM = {
     "note": "Trusted: CPython ast, vsa FORM/SHAPE engines, numpy/scipy functions named in the formulas. PIT slope/shape metrics and ensemble "
             "interpolation quality are not covered.",
     "technique": "static analysis: symbolic folding with field-named symbols, normal-form identity, comparison-shape of bin selection, "
-                 "structural pattern of the ensemble derivation, sibling agreement",
+                 "structural pattern of the ensemble derivation, sibling agreement; C08.1 get_p additionally by cases: the path conditions are evaluated for finite / infinite interval ends and every feasible path must request exactly the finite ends' thresholds and compose p accordingly",
 }
